@@ -142,7 +142,9 @@ pub fn common_assumptions(rep: &mut Report) {
 /// The shared family set behind C01 / C02 / C03 / C04 / C05 (concurrent part).
 pub fn core_families(rep: &mut Report, thorough: bool) {
 	let body = Body::TOUCH;
-	let cfg = Cfg { retry_rounds: if thorough { 3 } else { 2 }, ..Cfg::default() };
+	// violations of other properties are recorded (XREF) but do not end the path: a wrong-mode release (C05)
+	// must be allowed to go on and break mutual exclusion (C02), for instance
+	let cfg = Cfg { retry_rounds: if thorough { 3 } else { 2 }, verdict_props: vec![rep.prop.clone()], ..Cfg::default() };
 	run_into(rep, "A2", fam::fam_a(2, true, body), &cfg);
 	run_into(rep, "A3", fam::fam_a(3, thorough, body), &cfg);
 	run_into(rep, "B", fam::fam_b(body, if thorough { &[(true, true), (true, false), (false, false)] } else { &[(true, true), (true, false)] }), &cfg);
@@ -150,6 +152,7 @@ pub fn core_families(rep: &mut Report, thorough: bool) {
 	run_into(rep, "N", fam::fam_pairs_of(&fam::nested_specs(), "N", body, &[Flavour::Guard]), &cfg);
 	run_into(rep, "X", fam::fam_pairs_of(&fam::mixed_specs(), "X", body, &[Flavour::Guard]), &cfg);
 	run_into(rep, "D", fam::fam_d(body), &cfg);
+	run_into(rep, "F", fam::fam_f(body, thorough), &cfg);
 	if thorough {
 		run_into(rep, "N-flavours", fam::fam_pairs_of(&fam::nested_specs(), "Nf", body, &FLAVOURS[1..]), &cfg);
 		run_into(rep, "E3", fam::fam_e3(Body { touch: true, yield_mid: false, panic: false }), &cfg);
@@ -241,8 +244,12 @@ pub fn check_c11(tier: &str) -> ! {
 	for (name, progs) in fams {
 		run_into(&mut rep, name, progs, &cfg);
 	}
-	let moved: Vec<Viol> = rep.xrefs.iter().filter(|v| (v.prop == "C01" && v.key.starts_with("deadlock|")) || (v.prop == "C06" && v.key.starts_with("key-lost"))).cloned().collect();
-	rep.xrefs.retain(|v| !((v.prop == "C01" && v.key.starts_with("deadlock|")) || (v.prop == "C06" && v.key.starts_with("key-lost"))));
+	// histories with several panics in a row (a second panic on an already poisoned Poisonable, a panic after
+	// a failed try, ...): menu search over the poisonable / plain programs with the C11 oracles as verdict
+	crate::menuchecks::c11_menu(&mut rep, thorough);
+	let is_c11 = |v: &Viol| (v.prop == "C01" && v.key.starts_with("deadlock|")) || (v.prop == "C06" && (v.key.starts_with("key-lost") || (v.key.starts_with("probe-mismatch|after-") && v.key.contains("panic"))));
+	let moved: Vec<Viol> = rep.xrefs.iter().filter(|v| is_c11(v)).cloned().collect();
+	rep.xrefs.retain(|v| !is_c11(v));
 	for mut v in moved {
 		v.key = format!("after-user-panic:{}:{}", v.prop, v.key);
 		v.prop = "C11".into();
